@@ -121,6 +121,11 @@ def run(rep):
              'declarations first; noLongerProvides declares '
              'directlyProvidedBy(object) - interface; directlyProvidedBy '
              'strips exactly the trailing class specification', floor=3)
+    rep.rule('R20.8', 'a declaration asked for again with the same arguments is '
+             'computed against the class\'s CURRENT declarations: the shared Provides '
+             'object (whose redundant interfaces were left out when it was built) is '
+             'dropped from its memo whenever anything it was decided against changes '
+             '(shared with C01 R01.1)', floor=1)
     rep.rule('R20.7', 'membership and iteration read the same, current data: every '
              'changed() override of a declaration class refreshes the implied set '
              'through Specification.changed on every path (shared with C02 R02.4)',
@@ -201,6 +206,8 @@ def run(rep):
     # ---- R20.7 ---------------------------------------------------------------
     from .C02 import r02_4
     r02_4(rep, rep.repo, 'R20.7')
+    from .C01 import r01_1
+    r01_1(rep, rep.repo.module('declarations.py'), 'R20.8')
 
     # ---- R20.6 ---------------------------------------------------------------
     declsem.provides_users(rep, dmod, 'R20.6')
